@@ -2417,10 +2417,15 @@ class State:
             cards = dealable_cards[:cards]
         else:
             cards = Card.clean(cards)
-            dealable_cards = tuple(self.get_dealable_cards(len(cards)))
+            dealable_cards = list(self.get_dealable_cards(len(cards)))
 
             for card in cards:
-                if card not in dealable_cards and card:
+                if not card:
+                    continue
+
+                if card in dealable_cards:
+                    dealable_cards.remove(card)
+                else:
                     warn(
                         (
                             f'A card being dealt {repr(card)} is not'
